@@ -141,6 +141,10 @@ fn ref_items(items: &[Item], out: &mut String) {
 }
 
 fn ref_value(v: &Value, out: &mut String) {
+    ref_value_opt(v, out, false)
+}
+
+fn ref_value_opt(v: &Value, out: &mut String, braces: bool) {
     match v {
         Value::Extant => {}
         Value::Int32Value(n) => out.push_str(&n.to_string()),
@@ -185,7 +189,7 @@ fn ref_value(v: &Value, out: &mut String) {
                     }
                 }
             }
-            if attrs.is_empty() || !items.is_empty() {
+            if attrs.is_empty() || !items.is_empty() || braces {
                 out.push('{');
                 ref_items(items, out);
                 out.push('}');
@@ -199,6 +203,14 @@ fn ref_value(v: &Value, out: &mut String) {
 pub fn ref_print(v: &Value) -> String {
     let mut s = String::new();
     ref_value(v, &mut s);
+    s
+}
+
+/// Variant of [`ref_print`] that writes `{}` after the attributes of a top-level record without
+/// items (`@"a"{}`), for the producibility test only.
+pub fn ref_print_braced(v: &Value) -> String {
+    let mut s = String::new();
+    ref_value_opt(v, &mut s, true);
     s
 }
 
@@ -373,6 +385,21 @@ pub fn reductions(v: &Value) -> Vec<Value> {
         }
     }
     out
+}
+
+/// Does the value contain a NaN or an infinity? (The property is stated for finite floats.)
+pub fn has_non_finite(v: &Value) -> bool {
+    match v {
+        Value::Float64Value(x) => !x.is_finite(),
+        Value::Record(attrs, items) => {
+            attrs.iter().any(|a| has_non_finite(&a.value))
+                || items.iter().any(|i| match i {
+                    Item::ValueItem(x) => has_non_finite(x),
+                    Item::Slot(k, x) => has_non_finite(k) || has_non_finite(x),
+                })
+        }
+        _ => false,
+    }
 }
 
 pub fn tree_size(v: &Value) -> usize {
